@@ -106,6 +106,7 @@ class Env:
         self.loader = loader
         self.values = {}       # clause -> numeric lhs list (model validation)
         self.notes = []
+        self._undo = []
         if mode == 'num':
             import torch
             self.T = torch
@@ -171,10 +172,37 @@ class Env:
             return st.tensor(fs)
         return self._mk(d, b)
 
-    def angle_base(self, h):
+    def assume(self, what, cond):
+        """contract precondition / assumed fact (listed in the evidence)"""
+        self.notes.append(('assume', what))
+        if self.mode == 'sym':
+            for c in (list(st._T(cond)._a.flat) if isinstance(cond, st.Tensor) else [cond]):
+                if isinstance(c, SymBool):
+                    A.CTX.add_fact(c)
+                elif not c:
+                    raise Infeasible()
+        else:
+            ok = bool(cond.all()) if self.T.is_tensor(cond) else bool(cond)
+            if not ok: raise Infeasible()
+
+    def stub(self, mod, name, fn):
+        """by-contract mode: replace a callee of the extracted module by its contract (sym only);
+        undone at the end of the path"""
+        if self.mode != 'sym': return
+        old = getattr(mod, name)
+        setattr(mod, name, fn)
+        self._undo.append((mod, name, old))
+        self.notes.append(('stub', f'{mod.__name__}.{name}'))
+
+    def fresh_matrix(self, name, n, m):
+        """abstract matrix of fresh symbols (result of a stubbed callee)"""
+        c = A.CTX
+        return st.tensor([[c.sym(f'{name}{i}{j}', aux=True) for j in range(m)] for i in range(n)])
+
+    def angle_base(self, h, principal=False):
         """declare h (a 0-d / 1-element tensor) as the base angle of this obligation (sym only)"""
         if self.mode == 'sym':
-            AT.angle_base(st._T(h)._a.reshape(-1)[0])
+            AT.angle_base(st._T(h)._a.reshape(-1)[0], principal=principal)
 
     def eps(self, like):
         return self.T.finfo(like.dtype).eps
@@ -457,19 +485,23 @@ def run_symbolic(fn, loader, max_paths=64, z3_timeout=2000, seed=0, witness_trie
         try:
             fn(env)
         except Infeasible:
-            n_inf += 1
-            continue
+            outcome = 'infeasible'
         except EngineGap as e:
             outcome = 'gap'; err = str(e)
         except AssertionError as e:
             outcome = 'raised'; err = 'AssertionError: ' + str(e)[:300] + '\n' + traceback.format_exc()[-1500:]
         except Exception as e:
             outcome = 'raised'; err = f'{type(e).__name__}: {str(e)[:300]}\n' + traceback.format_exc()[-1500:]
+        finally:
+            for (m_, n_, old_) in reversed(env._undo): setattr(m_, n_, old_)
         # schedule alternatives
         taken = list(prefix)
         for (k, v) in orc.forks:
             work.append(taken + [(k, not v)])
             taken = taken + [(k, v)]
+        if outcome == 'infeasible':
+            n_inf += 1
+            continue
         # witness
         wit = None
         if outcome != 'gap':
@@ -512,6 +544,9 @@ def run_numeric(fn, sample=None, tol=1e-8, dtype='float64', rng=None, regime=Non
     outcome = 'ok'; err = None
     try:
         fn(env)
+    except Infeasible:
+        outcome = 'precondition'
+
     except AssertionError as e:
         outcome = 'raised'; err = 'AssertionError: ' + str(e)[:300]
     except Exception as e:
